@@ -44,7 +44,7 @@ def main():
     try:
         meta["base_commit"] = sh(["git", "-C", "/repo", "rev-parse", "--short", "HEAD"]).stdout.strip()
         demo_src = open(os.path.join(dst, "demo.py"), encoding="utf8").read()
-        agent_dir = "/tmp/seed-" + a.property
+        agent_dir = os.path.abspath(a.src) if os.path.abspath(a.src) != os.path.abspath(dst) else "/tmp/seed-" + a.property
         if agent_dir in demo_src:
             meta["demo_note"] = "the demo names its original directory %s; that path is replaced by the scratch worktree when it is run here" % agent_dir
         open(os.path.join(wt, "seed_demo.py"), "w", encoding="utf8").write(demo_src.replace(agent_dir, wt))
